@@ -81,6 +81,7 @@ static struct { void *(*fn)(void *); void *arg; bool started, finished; unsigned
 static size_t npend;
 static size_t cur_tid; /* 0 = main flow, k = pend[k-1] */
 static unsigned failed_creates;
+static bool create_failed[MAXT]; /* per user thread: its pthread_create was refused (a nested launch may fail while an outer one succeeds) */
 static size_t pend_of_user[MAXT]; /* user thread k -> 1 + index in pend[] (0 = never created) */
 static unsigned depth;
 static void run_thread(size_t i) {
@@ -108,7 +109,7 @@ static void schedule_point(void) { /* the solver may let not-yet-started threads
 }
 int pthread_create(pthread_t *t, const pthread_attr_t *a, void *(*fn)(void *), void *arg) {
     (void)a;
-    if (FAILC && nd_bool()) { failed_creates++; return EAGAIN; } /* resource exhaustion: nothing is created */
+    if (FAILC && nd_bool()) { failed_creates++; create_failed[(size_t)(uintptr_t)((struct thread_wrapper *)arg)->arg - 1] = true; return EAGAIN; } /* resource exhaustion: nothing is created */
     ASSERT(npend < MAXT, "harness: thread table large enough");
     pend[npend].fn = fn; pend[npend].arg = arg; pend[npend].started = pend[npend].finished = false; pend[npend].joined = 0;
     npend++;
@@ -201,11 +202,10 @@ static struct aws_thread_options joinable_opt;
 static void launch(size_t k, bool managed) {
     aws_thread_init(&th[k], verif_allocator());
     size_t count_before = aws_thread_get_managed_thread_count();
-    unsigned fails_before = failed_creates;
     int rc = aws_thread_launch(&th[k], user_fn, (void *)(uintptr_t)(k + 1), managed ? &managed_opt : (NAMES ? &joinable_opt : NULL));
-    if (failed_creates != fails_before) { /* pthread_create refused: the launch fails and leaves nothing behind */
+    if (create_failed[k]) { /* pthread_create refused: the launch fails and leaves nothing behind */
         ASSERT(rc == AWS_OP_ERR && aws_last_error() == AWS_ERROR_THREAD_INSUFFICIENT_RESOURCE, "launch reports the pthread_create failure");
-        ASSERT(aws_thread_get_managed_thread_count() == count_before, "a failed launch leaves the managed-thread count unchanged");
+        if (cur_tid == 0 && npend == 0) ASSERT(aws_thread_get_managed_thread_count() == count_before, "a failed launch leaves the managed-thread count unchanged");
         ASSERT(pend_of_user[k] == 0 && ran[k] == 0, "a failed launch never runs the function");
         launched[k] = false;
         return;
